@@ -1,15 +1,12 @@
 #!/bin/sh
-# Offline setup: nothing to download.  Warms the Kani build of every harness crate's dependencies
-# (optional: the checks rebuild whatever is stale from /repo's working tree anyway).
+# Offline setup: nothing to download or build ahead of time.  Every check compiles its harness crate
+# (path dependencies on /repo/crates/*) with `cargo kani` against /repo's current working tree and
+# caches build output under /verif/.kani-target/<group>.  This script only verifies the tool chain.
 set -e
 cd "$(dirname "$0")"
 export CARGO_NET_OFFLINE=true
-python3 lib/gen.py 2>/dev/null || true
-for g in harnesses/*/; do
-  g=$(basename "$g")
-  [ -f "harnesses/$g/Cargo.toml" ] || continue
-  cp /repo/Cargo.lock "harnesses/$g/Cargo.lock" 2>/dev/null || true
-  mkdir -p ".kani-target/$g"
-  (cd "harnesses/$g" && cargo kani -Z stubbing --only-codegen --target-dir "../../.kani-target/$g" >/dev/null 2>&1) || echo "warm build of $g failed (checks will rebuild)"
-done
+cargo kani --version
+cbmc --version
+python3 -c "import json,sys; json.load(open('MANIFEST.json')); json.load(open('known_findings.json')); print('manifest + known findings parse')"
+python3 lib/driver.py --list | awk '{print $1}' | sort | uniq -c
 echo setup done
